@@ -537,3 +537,19 @@ def build_sites(it, pred):
             out.append((bb, val))
             seen.add(bb)
     return out
+
+
+# the property whose subject a type is: a replica that was cloned, restored from its serialised form or built by
+# Default is a replica, so an impl that changes the state on the way breaks what the property says about every replica
+TYPE_PROPS = {
+    'orswot': ['C04'], 'map': ['C05'], 'mvreg': ['C06'], 'vclock': ['C10'], 'dot': ['C10'], 'gcounter': ['C11'], 'pncounter': ['C11'],
+    'lwwreg': ['C11'], 'maxreg': ['C11'], 'minreg': ['C11'], 'gset': ['C11'], 'list': ['C12'], 'glist': ['C12', 'C14'], 'identifier': ['C14', 'C12'],
+    'merkle_reg': ['C15'],
+}
+TYPE_PROP_WHY = 'every replica of the type, also one that was cloned, defaulted or restored from its serialised form, is subject to the property: ' \
+                'an impl that loses or changes state on the way changes what that replica reads'
+
+
+def type_props(instance):
+    """instance name starts with `<module>::` -> the properties about that module's type."""
+    return TYPE_PROPS.get(str(instance).split('::')[0], [])
